@@ -201,6 +201,11 @@ _INPLACE = re.compile(r"(^|::)(sort\w*|reverse|retain\w*|dedup\w*|truncate|drain
                       r"select_nth\w*|fill\w*|resize\w*|append|extend\w*|push)$")
 
 
+def inplace_call(path):
+    """A slice / Vec method that reorders, drops or adds elements in place."""
+    return bool(_INPLACE.search(path)) and bool(re.search(r"(slice::<impl \[T\]>|std::vec::Vec::<T|<impl \[T\]>|VecDeque)", path))
+
+
 def inplace_changes_of_records(w, body, reader_paths):
     """Calls in `body` that reorder, drop or add elements in place on the vector a bucket reader returned (the symbolic
     pipeline term does not see them: they take the vector by &mut and return nothing)."""
